@@ -67,6 +67,9 @@ class Puppet:
             return self.origin
         if claim == 'unknown':
             return ['host99:61000', 'ghost', ['10.9.9.9', 61000]]
+        if claim == 'renamed':
+            # another spelling of the identifier, resolved through the nick identifier
+            return ['%s.alt:%d' % (self.node['host'], self.port), self.nick, [self.node['ip'], self.port]]
         if claim == 'mismatch':
             return [self.identifier, self.nick, ['10.9.9.9', self.port]]
         sim = self.sim
